@@ -48,12 +48,12 @@ STUB = ['application shell that keeps and saves the viewer list (modelled on glu
 ASSUMPTIONS = ['a user may remove a dataset\'s own layer alone (its subset layers then stay until the subsets disappear); subset layers are not removed one by one', 'oracle only at quiescence', 'sampling, not proof']
 PROBES = ['viewer_before_data', 'subset_created_after_add', 'group_removed_with_viewer', 'data_removed_with_viewer', 'viewer_dropped_unclosed',
           'viewer_closed', 'picker_filter_flip', 'picker_no_choices', 'picker_component_removed', 'picker_data_removed', 'image_axis_set',
-          'image_reference_changed', 'image_reference_removed', 'restart_with_viewers', 'readd_in_delay_window', 'mpl_viewer', 'explicit_selection', 'data_layer_removed_alone', 'identifier_rebound_to_other_kind', 'image_subset_layer', 'profile_layer_added', 'profile_state_emptied']
+          'image_reference_changed', 'image_reference_removed', 'restart_with_viewers', 'readd_in_delay_window', 'mpl_viewer', 'explicit_selection', 'data_layer_removed_alone', 'identifier_rebound_to_other_kind', 'image_subset_layer', 'profile_layer_added', 'profile_state_emptied', 'viewer_given_removed_dataset']
 
 PROBES_THOROUGH_ONLY = ['mpl_viewer']
 
 WEIGHTS = {'new': 2, 'append': 3, 'remove': 1.5, 'new_group': 2.5, 'remove_group': 1.5, 'add_comp': 1.5, 'add_derived': 1, 'remove_comp': 1, 'rebind_comp': 0.8,
-           'rename': 0.7, 'reorder': 0.5, 'label': 0.5, 'v_new': 2, 'v_add': 4, 'v_add_subset': 1, 'v_remove': 1, 'v_remove_data_layer': 1, 'v_close': 0.5, 'v_drop': 0.5,
+           'rename': 0.7, 'reorder': 0.5, 'label': 0.5, 'v_new': 2, 'v_add': 4, 'v_add_gone': 0.8, 'v_add_subset': 1, 'v_remove': 1, 'v_remove_data_layer': 1, 'v_close': 0.5, 'v_drop': 0.5,
            'h_new': 2, 'h_append': 3, 'h_remove': 1, 'h_filter': 2, 'h_select': 1.5, 'h_drop': 0.4, 'i_new': 1, 'i_add': 2, 'i_add_subset': 1, 'i_remove': 0.7, 'p_new': 0.6, 'p_add': 1.5, 'p_remove': 1,
            'i_set': 4, 'delay_open': 1, 'delay_close': 1.5, 'collect': 0.5, 'restart': 0.4}
 FLAGS = ['numeric', 'categorical', 'pixel_coord', 'world_coord', 'derived', 'none']
@@ -121,7 +121,7 @@ def generate(rng, cfg, guards):
             ops.append([k, r8(), rng.randrange(1000)])
         elif k == 'v_new':
             ops.append([k, rng.pick(['histogram', 'scatter', 'image', 'profile']) if mpl else 'generic'])
-        elif k in ('v_add', 'v_remove', 'v_add_subset', 'v_remove_data_layer'):
+        elif k in ('v_add', 'v_remove', 'v_add_subset', 'v_remove_data_layer', 'v_add_gone'):
             ops.append([k, r8(), r8(), r8()])
         elif k == 'h_new':
             ops.append([k, rng.pick(['cid', 'cid', 'cid', 'manual', 'dc']), [rng.chance(0.7), rng.chance(0.7), rng.chance(0.3), rng.chance(0.3), rng.chance(0.7), rng.chance(0.2)],
@@ -422,6 +422,24 @@ def _execute(case, res, tmp):
                     v['orphans'] = [x for x in v.get('orphans', []) if x.data is not d]
                 if w.cms and id(d) in in_window['removed']:
                     v['ambiguous'].add(id(d))       # its removal message is still queued and will reach this viewer too
+            elif k == 'v_add_gone':
+                # a rejected call (K4): the viewer is handed a dataset that has left the collection; whether it raises or
+                # declines, nothing may remain of the attempt
+                if not viewers or not w.quiescent():
+                    continue
+                v = viewers[op[1] % len(viewers)]
+                gone = [d for d in w.pool if not any(d is x for x in w.dc) and getattr(d, 'hub', None) is not None]
+                if not gone:
+                    continue
+                d = gone[op[2] % len(gone)]
+                if v['kind'] == 'image' and d.ndim < 2:
+                    continue
+                try:
+                    v['v'].add_data(d)
+                except Exception:
+                    pass
+                res.fault('rejected_call')
+                res.probe('viewer_given_removed_dataset')
             elif k == 'v_add_subset':
                 if not viewers:
                     continue
